@@ -224,7 +224,9 @@ static void judge_solution(const case_t *c, sys_t *S, int trans, equed_t equed, 
                 ld actual = xn > 0 ? en / xn : 0;
                 ld ratio = (actual - refacc) / (40.0L * ferr + 1e-300L);
                 if (ratio > maxferr_ratio) maxferr_ratio = ratio;
-                if (actual > 40.0L * ferr + refacc + 4 * UROUND) {
+                /* (no absolute slack beyond the accuracy of the reference: a bound of 0 for an X that is not exact is a violation,
+                   as in LAPACK's own test of xGERFS) */
+                if (actual > 40.0L * ferr + refacc + 1e-3L * UROUND) {
                     snprintf(key, sizeof key, "C13|ferr-not-dominating%s", tag);
                     jo_fail(key, "rhs %ld: relative error %.3Le of X (in the equilibrated system) exceeds 40 * ferr = %.3Le (kappa %.2Le)", (long)cidx, actual, 40.0L * ferr, kappa);
                 }
